@@ -163,7 +163,7 @@ func init() {
 	}
 	Checks["C14"] = func(r *evid.Run) {
 		c14stats = NewStats()
-		exploreChoice(r, "c14.value", -1, time.Time{})
+		exploreChoiceOpts(r, "c14.value", -1, time.Time{}, 1) // one goroutine: a per-value, sequential property (concurrent callers are C17's business)
 		c14stats.Publish(r)
 		r.Set("rule", "one execution per lifecycle value 0..65535 (complete); distinct = distinct value; non-trivial = every value other than the all-default 0")
 		r.Set("distinct_nontrivial", r.Get("states")-1)
